@@ -322,6 +322,7 @@ fn exec_any_request(t: &mut Tape, st: &mut Stats) -> Result<(), String> {
     let mut sr = f.proceed();
     let mut buf = vec![0u8; 2048];
     let mut errors = 0;
+    let mut wire: Vec<u8> = vec![];
     for n in sizes {
         let ready_before = sr.can_proceed();
         match sr.write(&mut buf[..*n]) {
@@ -329,6 +330,7 @@ fn exec_any_request(t: &mut Tape, st: &mut Stats) -> Result<(), String> {
                 if ready_before && k > 0 {
                     return Err(format!("{}: {} bytes written although the head was reported complete", what, k));
                 }
+                wire.extend_from_slice(&buf[..k]);
             }
             Err(_) => errors += 1,
         }
@@ -351,13 +353,24 @@ fn exec_any_request(t: &mut Tape, st: &mut Stats) -> Result<(), String> {
         }
     };
     st.class("any_request_advanced");
-    // use the state reached
+    // use the state reached. The body is sent the way the head on the wire announces it to a recipient (RFC 9112 6.3: a chunked
+    // transfer coding overrides Content-Length): whatever the library decided internally must agree with what it wrote
+    let head = crate::model::head::parse_request_head(&wire).map_err(|e| format!("{}: the flow advanced but the head on the wire is invalid: {}", what, e))?;
+    let te_chunked = head
+        .fields
+        .iter()
+        .any(|(k, v)| k.eq_ignore_ascii_case("transfer-encoding") && String::from_utf8_lossy(v).split(',').any(|c| c.trim().eq_ignore_ascii_case("chunked")));
+    let announced_len: Option<usize> = if te_chunked {
+        None
+    } else {
+        head.fields.iter().find(|(k, _)| k.eq_ignore_ascii_case("content-length")).and_then(|(_, v)| String::from_utf8_lossy(v).trim().parse().ok())
+    };
+    let body: &[u8] = &b"12345678"[..announced_len.unwrap_or(0).min(8)];
     let mut out = [0u8; 64];
     let mut rr = match next {
         SendRequestResult::RecvResponse(r) => r,
         SendRequestResult::SendBody(mut sb) => {
-            // content-length: 5 needs its bytes; everything else is finished by the empty write
-            let data: &[u8] = if framing == 2 { b"12345" } else { b"" };
+            let data: &[u8] = body;
             sb.write(data, &mut out).map_err(|e| format!("{}: body write failed: {:?}", what, e))?;
             if !data.is_empty() && !sb.can_proceed() {
                 sb.write(b"", &mut out).map_err(|e| format!("{}: finishing write failed: {:?}", what, e))?;
@@ -371,7 +384,7 @@ fn exec_any_request(t: &mut Tape, st: &mut Stats) -> Result<(), String> {
         }
         SendRequestResult::Await100(a) => match a.proceed().map_err(|e| format!("{}: Await100::proceed: {:?}", what, e))? {
             Await100Result::SendBody(mut sb) => {
-                let data: &[u8] = if framing == 2 { b"12345" } else { b"" };
+                let data: &[u8] = body;
                 sb.write(data, &mut out).map_err(|e| format!("{}: body write failed: {:?}", what, e))?;
                 if !data.is_empty() && !sb.can_proceed() {
                     sb.write(b"", &mut out).map_err(|e| format!("{}: finishing write failed: {:?}", what, e))?;
